@@ -154,6 +154,8 @@ var c10Strs = []string{"", "a", "s1", "sub", "hello world", "q\"uote", "back\\sl
 	// post-processes its output textually mistakes these for escapes it wrote itself)
 	"\\u003c", "a\\u003eb", "\\u0026", "\\u2028", "\\n", "\\\\u003c", "\\\""}
 
+var c10WideInts = []int64{1<<53 + 1, 1<<53 - 1, 1<<62 + 1, 9223372036854775807, 9223372036854775806, 9223372036854775295,
+	-(1<<53 + 1), -9223372036854775808, -9223372036854775807}
 var c10Ints = []int64{0, 1, 5, -1, 3, 65535, 65536, 30000, 1700000000, -5, 7}
 var c10BigLits = []JV{
 	jIntLit(false, "9223372036854775807"), jIntLit(false, "9223372036854775808"),
@@ -519,7 +521,7 @@ func c10XEvent(r *common.Rand, wf bool) *XEvent {
 	e := &XEvent{ID: HStr(id), PK: HStr(pk), TS: common.Pick(r, c10Ints), Kind: common.Pick(r, c10Ints),
 		Content: HStr(c10Str(r)), Sig: HStr(sig)}
 	if r.Chance(10) {
-		e.TS = common.Pick(r, []int64{9223372036854775807, -9223372036854775808})
+		e.TS = common.Pick(r, append([]int64{9223372036854775807, -9223372036854775808}, c10WideInts...))
 	}
 	if !wf && r.Chance(40) {
 		return e // nil Tags
@@ -597,6 +599,12 @@ func c10XFilter(r *common.Rand, wf bool) *XFilter {
 	}
 	if r.Chance(sel) {
 		f.Limit = common.Ptr(common.Pick(r, c10Ints))
+	}
+	// integers a float64 cannot hold exactly, and the ends of int64 (a decoder that goes through a float loses them)
+	for _, p := range []**int64{&f.Since, &f.Until, &f.Limit} {
+		if *p != nil && r.Chance(15) {
+			*p = common.Ptr(common.Pick(r, c10WideInts))
+		}
 	}
 	return f
 }
